@@ -4,6 +4,7 @@
 -/
 import Driver.Codec
 import Proofs.RT.Top
+import Proofs.LRT.Bool
 set_option autoImplicit false
 
 namespace Narsese.Driver
@@ -278,6 +279,11 @@ def exec (op fmt payload : String) : Except String String := do
     let F ← efmtOf fmt
     let v ← runRd rdNarsese payload
     pure s!"h {bit (wfN F v)} {bit (topN F v)} ok {showNarsese .canon v}"
+  | "c02hyp" =>
+    -- model-only: do the hypotheses of the C02 round-trip theorem (`Props/C02b.lean`) hold for this value?
+    let L ← lfmtOf fmt
+    let v ← runRd rdLNarsese payload
+    pure s!"h {bit (wfLNB L v)} {bit (wsFreeN L v)} ok {showLNarsese v}"
   | "numok" =>
     -- is this (bits, text) pair what the model requires of a printed number?
     let x ← runRd rdNum payload
